@@ -35,29 +35,48 @@ Theorem C16_limits_at_least_two : 2 <= MaxActiveConnectionIDs /\ 2 <= MaxIssuedC
 Proof. exact limits_at_least_two. Qed.
 Print Assumptions C16_limits_at_least_two.
 
-(** (b) Peer's IDs. In every state the connection can reach ([reachP op_ok]: frames as the
-    parser delivers them - retransmitted, reordered, with Retire Prior To jumps -, path
-    probing, rotation; nothing after Close or after a frame error) with non-zero-length IDs, a NEW_CONNECTION_ID frame never gives
-    PROTOCOL_VIOLATION or a panic; CONNECTION_ID_LIMIT_ERROR only if afterwards more than
-    MaxActiveConnectionIDs pairwise distinct, received, never-retired sequence numbers are
-    held - hence never when the peer's duplicate-free set of active IDs L has at most
-    MaxActiveConnectionIDs elements; acceptance only if active + queue fit; any other
-    error only for conflicting contents of a queued or probing sequence number. *)
+(** (b) Peer's IDs. The limit the peer may rely on is lim = max(MaxActiveConnectionIDs, L), L the
+    active_connection_id_limit a spec-driven client advertised (SetConnectionIDLimit; 0 for
+    every other connection). In every state the connection can reach ([reachP op_ok]: frames
+    as the parser delivers them - retransmitted, reordered, with Retire Prior To jumps -,
+    path probing, rotation; nothing after Close or after a frame error) with non-zero-length
+    IDs, a NEW_CONNECTION_ID frame never gives PROTOCOL_VIOLATION or a panic;
+    CONNECTION_ID_LIMIT_ERROR only if afterwards more than lim pairwise distinct, received,
+    never-retired sequence numbers are held - hence never while the peer's duplicate-free
+    set of active IDs has at most lim elements; acceptance only if active + queue fit into
+    lim (the first ID beyond is refused); any other error only for conflicting contents of
+    a queued or probing sequence number. *)
 Theorem C16_accept_within_advertised : forall init ops st seq rpt c tok d,
   reachP op_ok init ops st -> m_acid st <> [] -> 0 <= rpt <= seq ->
   let st' := fst (mgr_add seq rpt c tok d st) in
   let r := snd (mgr_add seq rpt c tok d st) in
+  let lim := Z.max MaxActiveConnectionIDs (m_advlimit st) in
   r <> RProto /\ r <> RPanic /\
-  (r = RLimit -> MaxActiveConnectionIDs < zlength (held st')) /\
-  (r = ROk -> 1 + zlength (m_queue st') <= MaxActiveConnectionIDs) /\
+  (r = RLimit -> lim < zlength (held st')) /\
+  (r = ROk -> 1 + zlength (m_queue st') <= lim) /\
   (accepted r -> NoDup (held st') /\
                  forall s, In s (held st') -> retc s (m_log st') = 0 /\
                                               (s = 0 \/ 1 <= frames_for s (MAdd seq rpt c tok d :: ops))) /\
-  (forall L, NoDup L -> incl (held st') L -> zlength L <= MaxActiveConnectionIDs -> r <> RLimit) /\
+  (forall L, NoDup L -> incl (held st') L -> zlength L <= lim -> r <> RLimit) /\
   (r = ROther -> exists x, (In x (m_queue st) \/ exists id, In (id, x) (m_probing st)) /\
                            n_seq x = seq /\ cid_eqb (n_cid x) c && (n_tok x =? tok) = false).
 Proof. exact accept_within_limit. Qed.
 Print Assumptions C16_accept_within_advertised.
+
+(** the advertised limit is exactly what the last SetConnectionIDLimit call said *)
+Theorem C16_advertised_limit_follows : forall o st,
+  m_advlimit (fst (mgr_step o st)) = match sets_limit o with Some n => n | None => m_advlimit st end.
+Proof. exact mgr_step_adv. Qed.
+Print Assumptions C16_advertised_limit_follows.
+
+Example C16_advertised_limit_example :
+  hist_okb w_lim8 (mgr_init w_init) = true /\
+  m_advlimit (mgr_run w_lim8 (mgr_init w_init)) = 8 /\
+  snd (mgr_add 8 0 [8; 7] 1008 0 (mgr_run w_lim8 (mgr_init w_init))) = RLimit /\
+  snd (mgr_add MaxActiveConnectionIDs 0 [4; 7] 1004 0
+         (mgr_run (map w_add [1; 2; 3]) (mgr_init w_init))) = RLimit.
+Proof. exact advertised_limit_example. Qed.
+Print Assumptions C16_advertised_limit_example.
 
 (** (c) Retirements, on the connection's histories (any frames the parser delivers,
     including retransmissions for probing IDs): active / queued / probing sequence
@@ -149,19 +168,30 @@ Print Assumptions C16_expired_removed_exactly.
 
 (** (e) Transport routing table (packetHandlerMap): for every history of Add / AddWithConnID /
     Remove / ReplaceWithClosed (positive closing period) / reset-token calls / packets /
-    passing time, a connection ID maps to a closed-connection stand-in only while a
-    closing period naming it is still running; once time has passed the last pending
+    passing time, a connection ID maps to a closed-connection stand-in only while the
+    closing period that installed this stand-in for it is still running; once time has passed the last pending
     deadline no ID maps to a closed connection and no timer is left. *)
 Theorem C16_routing_closed_expire : forall ops,
   Forall rop_ok ops ->
   let s := rt_run ops rt_init in
   (forall k h, In (k, h) (rt_handlers s) -> closed_kind h ->
-     exists t ids, In (t, ids) (rt_timers s) /\ In k ids /\ rt_now s < t) /\
-  (forall d, 0 <= d -> (forall t ids, In (t, ids) (rt_timers s) -> t <= rt_now s + d) ->
+     exists t ids, In (t, ids, h) (rt_timers s) /\ In k ids /\ rt_now s < t) /\
+  (forall d, 0 <= d -> (forall t ids k, In (t, ids, k) (rt_timers s) -> t <= rt_now s + d) ->
      let s' := fst (rt_step (RAdvance d) s) in
      rt_timers s' = [] /\ forall k h, In (k, h) (rt_handlers s') -> ~ closed_kind h).
 Proof. exact routing_closed_expire. Qed.
 Print Assumptions C16_routing_closed_expire.
+
+(** (d) An ID routed to a live connection stays routed to it until an operation names that very
+    ID (Remove, ReplaceWithClosed, AddWithConnID as the new ID); in particular a later Add for
+    an ID survives the expiry of an earlier closed stand-in for the same ID (the removal timer
+    only retires the entry it installed). *)
+Theorem C16_routing_live_survives : forall ops o c n,
+  Forall rop_ok ops -> ~ touches o c ->
+  hget c (rt_handlers (rt_run ops rt_init)) = Some (HConn n) ->
+  hget c (rt_handlers (fst (rt_step o (rt_run ops rt_init)))) = Some (HConn n).
+Proof. exact live_survives_history. Qed.
+Print Assumptions C16_routing_live_survives.
 
 (** (d)/(e) a connection ID that was never handed to the table does not reach any handler *)
 Theorem C16_routing_no_foreign : forall ops s k h,
@@ -170,19 +200,23 @@ Theorem C16_routing_no_foreign : forall ops s k h,
 Proof. exact routing_no_foreign. Qed.
 Print Assumptions C16_routing_no_foreign.
 
-(** closed_conn.go: the stand-in of a locally closed connection retransmits
-    CONNECTION_CLOSE for packet n iff n is a power of two; a remotely closed one never. *)
-Theorem C16_backoff_power_of_two : forall s c j,
+(** closed_conn.go: the stand-in of a locally closed connection retransmits CONNECTION_CLOSE for
+    packet n iff n is a power of two and the copy stays within three times the bytes received
+    for the closed connection (RFC 9000 10.2.1); a remotely closed one never answers. *)
+Theorem C16_backoff_power_of_two : forall s c j size,
   hget c (rt_handlers s) = Some (HLocal j) ->
-  let v := match zget j (rt_counters s) with Some v => v | None => 0 end in
-  0 <= v -> v + 1 < 4294967296 ->
-  let r := snd (rt_step (RDeliver c) s) in
-  rr_kind r = 2 /\ (rr_sent r = 1 <-> exists k : nat, v + 1 = 2 ^ Z.of_nat k) /\ (rr_sent r = 0 \/ rr_sent r = 1).
+  let l := match zget j (rt_locals s) with Some v => v | None => mkL 0 0 0 0 end in
+  0 <= l_cnt l -> l_cnt l + 1 < 4294967296 ->
+  let r := snd (rt_step (RDeliver c size) s) in
+  rr_kind r = 2 /\
+  (rr_sent r = 1 <-> (exists k : nat, l_cnt l + 1 = 2 ^ Z.of_nat k) /\
+                     l_sent l + l_psize l <= 3 * (l_recv l + size)) /\
+  (rr_sent r = 0 \/ rr_sent r = 1).
 Proof. exact backoff_power_of_two. Qed.
 Print Assumptions C16_backoff_power_of_two.
 
-Theorem C16_remote_closed_silent : forall s c,
-  hget c (rt_handlers s) = Some HRemote -> rr_sent (snd (rt_step (RDeliver c) s)) = 0.
+Theorem C16_remote_closed_silent : forall s c size,
+  hget c (rt_handlers s) = Some HRemote -> rr_sent (snd (rt_step (RDeliver c size) s)) = 0.
 Proof. exact remote_closed_silent. Qed.
 Print Assumptions C16_remote_closed_silent.
 
